@@ -50,6 +50,10 @@ fn inv(st: &TaskState<'_>) {
         vassert!(host::joined_set_of(UNIT_R) == SET, "C23: a pending wakeup read is in the task's own waitable set");
     }
     vassert!(h().unit_new <= 1, "C23: the wakeup stream is created at most once per task");
+    // SLEEPING is the state in which a wake writes an item: it may only be entered with a read pending to receive it
+    if st.shared.sleep_state.load(Ordering::Relaxed) == SLEEP_STATE_SLEEPING {
+        vassert!(h().unit_read_pending, "C23: the task is marked SLEEPING although no wakeup read is pending (a wake would write an item nobody reads, or trap)");
+    }
 }
 
 // 1. going to sleep: from (no stream) and from (stream exists, no read pending) exactly one read is started, the stream is
@@ -258,6 +262,33 @@ itw_harness! { fn c23_other_event_cancels_pending_read_before_polling() {
         core::mem::forget(st);
         kani::cover!(woken_first);
         kani::cover!(!woken_first);
+    }
+}}
+
+// 7. a callback that answers YIELD (woken during polling) does not leave the task marked SLEEPING: it will be resumed by the
+//    host without any wakeup item, so a wake arriving before that must be a no-op (coalesced), not a stream write.
+itw_harness! { fn c23_yield_leaves_task_woken_not_sleeping() {
+    #[cfg(kani)]
+    {
+        c22::reset([Step::PendingWake, Step::Ready, Step::Ready]);
+        let mut st = TaskState::new(Box::pin(Body));
+        let had_slept_before: bool = kani::any();
+        if had_slept_before {
+            // the wakeup stream already exists from an earlier sleep (no read pending now)
+            st.read_inter_task_stream();
+            st.cancel_inter_task_stream_read();
+        }
+        let writes_before = h().unit_writes;
+        let rc = st.callback(EVENT_NONE, 0, 0);
+        vassert!(rc == CallbackCode::Yield);
+        inv(&st);
+        vassert!(st.shared.sleep_state.load(Ordering::Relaxed) != SLEEP_STATE_SLEEPING, "C23: a yielding task is not sleeping");
+        // another task wakes it before the host resumes it: coalesced, nothing is written
+        st.shared.wake_by_ref();
+        vassert!(h().unit_writes == writes_before, "C23: a wake while the task is only yielding writes no wakeup item");
+        no_host_trap();
+        core::mem::forget(st);
+        kani::cover!(had_slept_before);
     }
 }}
 
